@@ -26,31 +26,20 @@ MALFORMED_MIN = 20
 SUITE_UNDER_CONTRACTS = True
 
 
-def _nested_code(code, names, out):
-    for c in code.co_consts:
-        if hasattr(c, 'co_name'):
-            if c.co_name in names:
-                out[c.co_name] = c
-            _nested_code(c, names, out)
+ACTIONS = ('convert_element', 'convert_implicit', 'convert_explicit', 'convert_compound')
 
 
-def setup(ctx):
+def _attach_count_atoms_contract(ctx, stats):
+    """icontract postcondition on the PRIVATE formulas._count_atoms: equals an independent top-down fold of the
+    same structure.  Optional instrumentation: skipped (requirement waived) when the name is gone; a call whose
+    arguments or result no longer have the pinned form (one structure in, {atom: count} out) is passed through
+    un-judged and counted as contract._count_atoms.unrecognised_call."""
     import icontract
-    import periodictable as pt
-    from periodictable import core, formulas, mass, density
-    from ..ref.masses import MassModel
-    from ..statemon import Reach
-    from ..atoms import key as akey
-
-    _s['model'] = MassModel()
-    _s['me'] = pt.constants.electron_mass
-    T = core.PeriodicTable('c01_private_%d' % ctx.shard)
-    mass.init(T)
-    density.init(T)
-    _s['tables'] = {'public': pt.elements, 'private': T}
-
-    # contract: _count_atoms equals an independent top-down fold of the same structure
-    stats = _s['contract'] = {'evals': 0}
+    from periodictable import formulas
+    from ..gen.formulas import private, pairs_structure
+    orig = private(ctx, formulas, '_count_atoms', waived=['contract._count_atoms'])
+    if orig is None or not callable(orig):
+        return
 
     class CountAtomsBroken(AssertionError):
         pass
@@ -65,9 +54,13 @@ def setup(ctx):
         return out
 
     def count_atoms_matches_fold(seq, result):
+        try:
+            want = model_fold(seq, 1, {})
+            got = {id(a): c for a, c in result.items()}
+        except Exception:
+            stats['unrecognised'] += 1      # result is not an {atom: count} mapping any more: not judged
+            return True
         stats['evals'] += 1
-        want = model_fold(seq, 1, {})
-        got = {id(a): c for a, c in result.items()}
         if set(want) != set(got):
             return False
         for k, v in want.items():
@@ -75,25 +68,48 @@ def setup(ctx):
                 return False
         return True
 
-    formulas._count_atoms = icontract.ensure(count_atoms_matches_fold, error=CountAtomsBroken)(formulas._count_atoms)
+    def judged(seq):
+        return orig(seq)
+    judged = icontract.ensure(count_atoms_matches_fold, error=CountAtomsBroken)(judged)
+
+    def _count_atoms(*args, **kw):
+        if len(args) == 1 and not kw and pairs_structure(args[0]):
+            return judged(args[0])
+        stats['unrecognised'] += 1
+        return orig(*args, **kw)
+    _count_atoms.__wrapped__ = orig
+    _count_atoms.__doc__ = getattr(orig, '__doc__', None)
+    formulas._count_atoms = _count_atoms
+
+
+def setup(ctx):
+    import periodictable as pt
+    from periodictable import core, formulas, mass, density
+    from ..ref.masses import MassModel
+    from ..statemon import Reach
+    from ..gen.formulas import watch_nested
+
+    _s['model'] = MassModel()
+    _s['me'] = pt.constants.electron_mass
+    T = core.PeriodicTable('c01_private_%d' % ctx.shard)
+    mass.init(T)
+    density.init(T)
+    _s['tables'] = {'public': pt.elements, 'private': T}
+
+    # contract on the private _count_atoms (optional instrumentation)
+    stats = _s['contract'] = {'evals': 0, 'unrecognised': 0}
+    _attach_count_atoms_contract(ctx, stats)
 
     reach = Reach()
-    found = {}
-    _nested_code(formulas.formula_grammar.__code__,
-                 {'convert_element', 'convert_implicit', 'convert_explicit', 'convert_compound'}, found)
-    for name, code in found.items():
-        reach.codes[code] = name
-    for name in ('convert_element', 'convert_implicit', 'convert_explicit', 'convert_compound'):
-        if name not in found:      # parse actions were renamed / moved: the counter is evidence only
-            ctx.count('anchor_missing.reach.' + name)
-            ctx.note('parse action %r not found in formula_grammar (refactored source); reach requirement waived' % name)
+    # the four parse actions are nested functions of formula_grammar on the pinned tree (private names): when they
+    # were renamed / moved the counter is evidence only
+    watch_nested(ctx, reach, getattr(formulas, 'formula_grammar', None), ACTIONS)
     reach.watch(core.IonSet.__getitem__, 'IonSet.__getitem__')
     reach.watch(core.Element.__getitem__, 'Element.__getitem__')
     reach.watch(core.PeriodicTable.symbol, 'PeriodicTable.symbol')
     reach.start()
     _s['reach'] = reach
-    for name in ('convert_element', 'convert_implicit', 'convert_explicit', 'convert_compound',
-                 'IonSet.__getitem__', 'Element.__getitem__', 'PeriodicTable.symbol'):
+    for name in ACTIONS + ('IonSet.__getitem__', 'Element.__getitem__', 'PeriodicTable.symbol'):
         ctx.require('reach.' + name, 1, 'the workload must enter this anchored mechanism')
     ctx.require('contract._count_atoms', 1, 'the _count_atoms postcondition must have been evaluated')
     if not ctx.replay:
@@ -107,6 +123,8 @@ def finish(ctx):
     _s['reach'].stop()
     _s['reach'].export(ctx)
     ctx.count('contract._count_atoms', _s['contract']['evals'])
+    if _s['contract']['unrecognised']:
+        ctx.count('contract._count_atoms.unrecognised_call', _s['contract']['unrecognised'])
 
 
 # ---------------------------------------------------------------- oracles
